@@ -71,19 +71,36 @@ def npmax(vals, start=F(0)):
     return m
 
 
+# ---------------------------------------------------------------- representations a caller / a test legally produces
+def repf(rng, x):
+    """a float as Python float, np.float64, or a float that went through Fraction (same value)"""
+    return rng.choice([float, float, np.float64, lambda v: float(F(*float(v).as_integer_ratio())) if math.isfinite(v) else float(v)])(x)
+
+
+def repi(rng, x):
+    return rng.choice([int, int, np.int64, np.int32])(x)
+
+
+def repb(rng, x):
+    return rng.choice([bool, bool, np.bool_])(x)
+
+
+PCONV = {"float": float, "np.float64": np.float64, "0-d array": lambda v: np.array(float(v))}
+
+
 class StubTest:
     """Stands in for a NonnegMean instance: a test whose result is a fixed function of the data (covers NaN, values
     exactly at the risk limit, values above 1) — set_p_values is parametric in the test."""
 
-    def __init__(self, table):
-        self.table, self.u = table, 1
+    def __init__(self, table, conv="float"):
+        self.table, self.u, self.conv = [float(x) for x in table], 1, conv      # conv: how the p-value is represented
 
     def test(self, d):
         p = self.table[(len(d) + int(round(float(np.sum(d)) * 4))) % len(self.table)]
-        return p, np.array([min(1.0, p * (k + 1)) if not math.isnan(p) else p for k in range(len(d))][::-1])
+        return PCONV[self.conv](p), np.array([min(1.0, p * (k + 1)) if not math.isnan(p) else p for k in range(len(d))][::-1])
 
     def __deepcopy__(self, memo):
-        s = StubTest(list(self.table))
+        s = StubTest(list(self.table), self.conv)
         s.u = self.u
         return s
 
@@ -98,8 +115,8 @@ def gen_contest_dict(rng, cid, stub_rate):
     kind = rng.choice(["plurality", "plurality", "supermajority", "irv"])
     at = rng.choice([A.Audit.AUDIT_TYPE.CARD_COMPARISON, A.Audit.AUDIT_TYPE.CARD_COMPARISON, A.Audit.AUDIT_TYPE.POLLING,
                      A.Audit.AUDIT_TYPE.ONEAUDIT])
-    d = {"id": cid, "name": cid, "risk_limit": rng.choice(LIMITS), "cards": 40, "audit_type": at, "use_style": rng.random() < 0.6,
-         "n_winners": 1}
+    d = {"id": cid, "name": cid, "risk_limit": repf(rng, rng.choice(LIMITS)), "cards": repi(rng, 40), "audit_type": at,
+         "use_style": repb(rng, rng.random() < 0.6), "n_winners": repi(rng, 1)}
     t = rng.choice(["alpha_fixed", "alpha_shrink", "alpha_opt", "bet_fixed", "bet_agrapa", "kk", "km", "kw", "sprt"])
     d["test_kwargs"] = {}
     if t.startswith("alpha"):
@@ -121,7 +138,7 @@ def gen_contest_dict(rng, cid, stub_rate):
     if kind == "plurality":
         nc = rng.randint(2, 7)
         nw = 2 if (nc >= 4 and rng.random() < 0.3) else 1
-        d.update(choice_function=A.Contest.SOCIAL_CHOICE_FUNCTION.PLURALITY, candidates=CANDS[:nc], winner=CANDS[:nw], n_winners=nw)
+        d.update(choice_function=A.Contest.SOCIAL_CHOICE_FUNCTION.PLURALITY, candidates=CANDS[:nc], winner=CANDS[:nw], n_winners=repi(rng, nw))
     elif kind == "supermajority":
         d.update(choice_function=A.Contest.SOCIAL_CHOICE_FUNCTION.SUPERMAJORITY, candidates=CANDS[:rng.randint(2, 4)],
                  winner=["Alice"], share_to_win=rng.choice([0.5, 0.625, 2 / 3]))
@@ -205,7 +222,8 @@ def build_audit(rng, stub_rate=0.25):
                     asn.assorter.tally_pool_means = {"p1": 0.5, "p2": 0.625}
             if dicts[n]["stub"]:
                 lim = con.risk_limit
-                asn.test = StubTest(rng.sample([lim, lim, lim / 2, float(np.nextafter(lim, 1)), 0.0, 1.0, 0.75, float("nan"), 1.5,
+                lim = float(lim)
+                asn.test = StubTest(conv=rng.choice(list(PCONV)), table=rng.sample([lim, lim, lim / 2, float(np.nextafter(lim, 1)), 0.0, 1.0, 0.75, float("nan"), 1.5,
                                                 lim / 4, 0.3], rng.randint(2, 5)))
         con.sample_threshold = rng.choice([1.0, 1.0, 1.0, 0.5, 0.75])
     if rng.random() < 0.04:
@@ -467,7 +485,8 @@ def run_poked(rng, res, stats):
                                          + ([bigger[-1], (lim + bigger[0]) / 2] if bigger else []))
             else:
                 asn.p_value = rng.choice([lim, lim, lim / 2, 0.0, lim / 8])
-            asn.proved = rng.random() < 0.5
+            asn.p_value = PCONV[rng.choice(list(PCONV))](asn.p_value)       # Python float, numpy scalar or 0-d array
+            asn.proved = repb(rng, rng.random() < 0.5)
             asn.p_history = [1.0, float(asn.p_value)] if rng.random() < 0.5 else []
     case = {"config": {n: {"risk_limit": d["risk_limit"], "kind": d["kind"]} for n, d in dicts.items()},
             "order": list(contests.keys()), "poked": True, "init": read_state(contests), "steps": []}
@@ -500,10 +519,10 @@ def run_many(rng, res, stats, nw):
     ncand = rng.randint(25, 40)
     cands = [f"cand{i:02d}" for i in range(ncand)]
     lim_big, lim_small = rng.sample(LIMITS, 2)
-    dd = {"big": {"risk_limit": lim_big, "cards": 80, "choice_function": A.Contest.SOCIAL_CHOICE_FUNCTION.PLURALITY,
-                  "n_winners": nw, "candidates": cands, "winner": cands[:nw], "audit_type": A.Audit.AUDIT_TYPE.POLLING,
+    dd = {"big": {"risk_limit": repf(rng, lim_big), "cards": repi(rng, 80), "choice_function": A.Contest.SOCIAL_CHOICE_FUNCTION.PLURALITY,
+                  "n_winners": repi(rng, nw), "candidates": cands, "winner": cands[:nw], "audit_type": A.Audit.AUDIT_TYPE.POLLING,
                   "use_style": True, "test": NM().alpha_mart, "test_kwargs": {}},
-          "small": {"risk_limit": lim_small, "cards": 80, "choice_function": A.Contest.SOCIAL_CHOICE_FUNCTION.PLURALITY,
+          "small": {"risk_limit": repf(rng, lim_small), "cards": repi(rng, 80), "choice_function": A.Contest.SOCIAL_CHOICE_FUNCTION.PLURALITY,
                     "n_winners": 1, "candidates": ["Alice", "Bob"], "winner": ["Alice"],
                     "audit_type": A.Audit.AUDIT_TYPE.POLLING, "use_style": True, "test": NM().alpha_mart, "test_kwargs": {}}}
     order = ["big", "small"] if rng.random() < 0.5 else ["small", "big"]
@@ -527,9 +546,9 @@ def run_many(rng, res, stats, nw):
         small_p = rng.choice([lim_small / 2, lim_small, 0.0])
         if via_set:
             for a, asn in contests["big"].assertions.items():
-                asn.test = StubTest([good[a]])
+                asn.test = StubTest([good[a]], rng.choice(list(PCONV)))
             for a, asn in contests["small"].assertions.items():
-                asn.test = StubTest([small_p])
+                asn.test = StubTest([small_p], rng.choice(list(PCONV)))
             before = read_state(contests)
             tests = recompute(contests, mvrs, None)
             s_ = {"op": "set", "lens_ok": True, "tests": tests, "n": len(mvrs)}
@@ -543,9 +562,9 @@ def run_many(rng, res, stats, nw):
             stats["set"] += 1
         else:                                                          # state written directly into the objects
             for a, asn in contests["big"].assertions.items():
-                asn.p_value = good[a]
+                asn.p_value = PCONV[rng.choice(list(PCONV))](good[a])
             for a, asn in contests["small"].assertions.items():
-                asn.p_value = small_p
+                asn.p_value = PCONV[rng.choice(list(PCONV))](small_p)
         before = read_state(contests)
         with contextlib.redirect_stdout(io.StringIO()):
             ret = audit.summarize_status(contests)
@@ -602,8 +621,11 @@ def gen_cap(rng):
             else:
                 d["choice_function"], d["assertion_file"] = "IRV", rng.choice([None, ""])
                 d["n_winners"], d["winner"] = 1, d["winner"][:1]
+        d["risk_limit"], d["n_winners"] = repf(rng, d["risk_limit"]), repi(rng, d["n_winners"])
         cons[name] = d
-    audit = A.Audit.from_dict({"strata": {"s": {"use_style": True, "max_cards": 10}}, "error_rate_1": e1, "error_rate_2": e2})
+    e1, e2 = repf(rng, e1), repf(rng, e2)
+    audit = A.Audit.from_dict({"strata": {"s": {"use_style": repb(rng, True), "max_cards": repi(rng, 10)}}, "error_rate_1": e1,
+                               "error_rate_2": e2})
     contests = A.Contest.from_dict_of_dicts(copy.deepcopy(cons))
     out = None
     try:
